@@ -265,7 +265,7 @@ def run(case: dict, ctx) -> dict:
     raw, meta = w.build(rng, tree, ntables=ntables, seqs=(s1, s2), stale_tables=stale, free_prob=rng.choice([0, 0.15, 0.4]),
                         table_order=rng.choice(["shuffle", "shuffle", "seq"]), extra_object_tables=rng.choice([0, 0, 1, 3]),
                         trailer_mode=rng.choice(["12", "12", "0", "rand"]), stale_same_layout=rng.random() < 0.7,
-                        replay_entries=rng.choice([0, 0, 3]), **big_ot)
+                        replay_entries=rng.choice([0, 0, 3]), inactive_slot=rng.choice(["valid", "valid", "zero", "garbage"]), **big_ot)
     want = expected(tree)
     # writer self-check against the independent mini-decoder (never blames the repository)
     md = mini_decode(raw)
